@@ -210,7 +210,18 @@ func enter(op string, mutate bool, file, path string, faultKinds ...string) (cal
 	}
 	kind := ""
 	if c.Plan != nil && c.Plan.Budget > 0 && len(faultKinds) > 0 && c.Tape != nil {
-		if c.Tape.Choose(100) >= 100-c.Plan.Pct {
+		// data transfers are rarer than opens: give them a higher rate so that write faults
+		// (clean failures and torn writes) are exercised as often as open failures
+		pct := c.Plan.Pct
+		if op == "Write" {
+			pct *= 5
+		} else if op == "Read" {
+			pct *= 2
+		}
+		if pct > 60 {
+			pct = 60
+		}
+		if c.Tape.Choose(100) >= 100-pct {
 			kind = faultKinds[c.Tape.Choose(len(faultKinds))]
 			c.Plan.Budget--
 			c.Plan.Kinds = append(c.Plan.Kinds, kind)
